@@ -41,8 +41,8 @@ PROPS = {
                 rule="strict independent decoder on every byte the client writes; non-trivial = >= 3 packets from the client; distinct = distinct trace hash"),
     "C18": dict(level=EXPL, quick=30000, thorough=1000000,
                 rule="reference-encoded broker packets (short forms, property mixes) under chunking; non-trivial = >= 3 packets to the client incl. one with properties; distinct = distinct trace hash"),
-    "C19": dict(level=EXPL, quick=30000, thorough=1000000,
-                rule="hostile broker (mutations + random bytes) with ASan/UBSan; non-trivial = at least one hostile packet was delivered; distinct = distinct trace hash"),
+    "C19": dict(level=EXPL, quick=30000, thorough=1000000, extra_sweeps=[("C19diff", 0.25)],
+                rule="hostile broker (mutations + random bytes) with ASan/UBSan, plus a chunking differential (same burst under 3 read chunkings must give the same logical trace); non-trivial = at least one hostile packet was delivered; distinct = distinct trace hash"),
     "C20": dict(level="fault_enumeration", quick=0, thorough=0, components=["rc_table"], components_only=True, exhaustive=True,
                 rule="complete enumeration of 9 categories x 256 byte values"),
 }
